@@ -793,13 +793,66 @@ struct C09Shared {
     stop: AtomicBool,
 }
 
+/// A forwarder on loopback (UDP) with a fixed, stateless repertoire under `fwd.test.`: a positive answer, an alias plus
+/// its target, a name error with SOA, an empty answer with SOA; REFUSED for everything else.  All TTLs are 0, so
+/// nothing is cached and the server under test and the in-process expectation see the same thing every time.
+fn spawn_fake_forwarder() -> std::io::Result<SocketAddr> {
+    use verif_harness::netsim::{encode, reply_to};
+    let sock = UdpSocket::bind("127.0.0.1:0")?;
+    let addr = sock.local_addr()?;
+    std::thread::spawn(move || {
+        let zone = dn("fwd.test.");
+        let soa = rr(
+            &zone,
+            RecordTypeWithData::SOA {
+                mname: dn("ns.fwd.test."),
+                rname: dn("admin.fwd.test."),
+                serial: 7,
+                refresh: 1,
+                retry: 1,
+                expire: 1,
+                minimum: 0,
+            },
+            0,
+        );
+        let pos = rr(&dn("pos.fwd.test."), a(Ipv4Addr::new(10, 9, 8, 7)), 0);
+        let mut buf = [0u8; 1500];
+        loop {
+            let Ok((n, from)) = sock.recv_from(&mut buf) else { continue };
+            let Ok(req) = Message::from_octets(&buf[..n]) else { continue };
+            let Some(q) = req.questions.first() else { continue };
+            let first = q.name.labels.first().map(|l| l.octets().to_vec()).unwrap_or_default();
+            let is_a = q.qtype == QueryType::Record(RecordType::A);
+            let reply = if !q.name.is_subdomain_of(&zone) || !req.header.recursion_desired {
+                reply_to(&req, Rcode::Refused, false, vec![], vec![], vec![])
+            } else {
+                match first.as_slice() {
+                    b"pos" if is_a => reply_to(&req, Rcode::NoError, false, vec![pos.clone()], vec![], vec![]),
+                    b"alias" if is_a => reply_to(&req, Rcode::NoError, false, vec![rr(&q.name, cname(&dn("pos.fwd.test.")), 0), pos.clone()], vec![], vec![]),
+                    b"pos" | b"alias" | b"nodata" => reply_to(&req, Rcode::NoError, false, vec![], vec![soa.clone()], vec![]),
+                    b"neg" => reply_to(&req, Rcode::NameError, false, vec![], vec![soa.clone()], vec![]),
+                    _ => reply_to(&req, Rcode::Refused, false, vec![], vec![], vec![]),
+                }
+            };
+            let _ = sock.send_to(&encode(&reply), from);
+        }
+    });
+    Ok(addr)
+}
+
 #[allow(clippy::too_many_lines)]
 fn c09_mode(args: &Args, run: &Run, authoritative_only: bool, salt: u64) -> Result<(), String> {
     let seed = args.seed;
     let dir = PathBuf::from(format!("/verif/target/scratch/c09-{}-{salt}", std::process::id()));
-    let (mut sargs, names) = write_c09_config(&dir);
-    // recursion offered: forwarder at a port nobody listens on, so upstream failures are immediate
-    let closed: SocketAddr = "127.0.0.1:9".parse().unwrap();
+    let (mut sargs, mut names) = write_c09_config(&dir);
+    // recursion offered: a forwarder on loopback that knows four names (positive, alias, name error, no data - the
+    // latter two with a SOA to relay) and refuses everything else at once
+    let closed: SocketAddr = if authoritative_only { "127.0.0.1:9".parse().unwrap() } else { spawn_fake_forwarder().map_err(|e| format!("fake forwarder: {e}"))? };
+    if !authoritative_only {
+        for n in ["pos.fwd.test.", "alias.fwd.test.", "neg.fwd.test.", "nodata.fwd.test."] {
+            names.push(dn(n));
+        }
+    }
     if authoritative_only {
         sargs.push("--authoritative-only".into());
     } else {
